@@ -157,15 +157,17 @@ type Run struct {
 	S       *Script
 	Carrier string
 
-	mu     sync.Mutex
-	events []Event
-	gates  map[string]chan struct{}
+	mu          sync.Mutex
+	events      []Event
+	gates       map[string]chan struct{}
+	releasedAll bool
 
 	Ctx    context.Context
 	Cancel context.CancelFunc
 
 	handlerStarted chan struct{}
 	handlerDone    chan struct{}
+	ClientDone     chan struct{} // closed when the client actors have finished
 	hStarted       atomic.Int32
 	HandlerCtx     context.Context
 	HandlerMD      metadata.MD
@@ -241,6 +243,9 @@ func (r *Run) gate(name string) chan struct{} {
 	g, ok := r.gates[name]
 	if !ok {
 		g = make(chan struct{})
+		if r.releasedAll {
+			close(g)
+		}
 		r.gates[name] = g
 	}
 	return g
@@ -261,6 +266,7 @@ func (r *Run) Release(name string) {
 // ReleaseAll opens every gate that exists or will be asked for.
 func (r *Run) ReleaseAll() {
 	r.mu.Lock()
+	r.releasedAll = true
 	for _, g := range r.gates {
 		select {
 		case <-g:
@@ -306,7 +312,7 @@ const runKey = "x-verif-run"
 
 func (s *Service) NewRun(sc *Script, carrier string) *Run {
 	id := fmt.Sprintf("r%d", s.seq.Add(1))
-	r := &Run{ID: id, S: sc, Carrier: carrier, handlerStarted: make(chan struct{}), handlerDone: make(chan struct{})}
+	r := &Run{ID: id, S: sc, Carrier: carrier, handlerStarted: make(chan struct{}), handlerDone: make(chan struct{}), ClientDone: make(chan struct{})}
 	s.runs.Store(id, r)
 	return r
 }
@@ -593,7 +599,7 @@ func (r *Run) Exec(cc grpc.ClientConnInterface, parent context.Context, watchdog
 	}
 	opts = append(opts, r.S.ExtraOpts...)
 
-	done := make(chan struct{})
+	done := r.ClientDone
 	go func() {
 		defer close(done)
 		if r.S.Kind == Unary {
